@@ -1,9 +1,10 @@
-import SqlProofs.DelimR.Cfg
+import SqlProofs.DelimChild.Reindent.Cfg
 /-!
-# SqlProofs.DelimR.CfgInst — `CfgD` for the ten aligned `_group` configurations
+# SqlProofs.DelimChild.Reindent.CfgInst — `CfgD` for the ten aligned `_group` configurations
 -/
 namespace Sql
-namespace DC
+namespace DCR
+open DC
 
 variable {u : Text → Text}
 
@@ -282,6 +283,6 @@ theorem cfgD_operator (hu : DelimU u) : CfgD u (cfgOperator u) where
     delim_simp)
   ilc := fun h => nomatch h
 
-end DC
+end DCR
 end Sql
 
